@@ -8,8 +8,12 @@ import (
 
 	sdk "github.com/cosmos/cosmos-sdk/types"
 	"github.com/ethereum/go-ethereum/core/types/goattypes"
+	bitcoinmodule "github.com/goatnetwork/goat/x/bitcoin/module"
 	bitcointypes "github.com/goatnetwork/goat/x/bitcoin/types"
+	relayertypes "github.com/goatnetwork/goat/x/relayer/types"
 )
+
+var genesisKey = mkBrKey("genesis", 0)
 
 var boundary64 = []uint64{0, 1, 2, 545, 546, 547, 999, 1000, 1001, 9999, 10000, 10001, 99999999, 100000000, 100000001,
 	1 << 31, 1<<32 - 1, 1 << 32, 1<<63 - 1, 1 << 63, 1<<64 - 1, 1<<64 - 2}
@@ -120,9 +124,29 @@ func runParams(rng *Rng, n int, st *Stats, param string) ([]string, []any) {
 			if q.Validate() == nil {
 				ok = 1
 			}
+			// the same parameters inside a genesis state that names a relayer key (as every real genesis does)
+			gs := bitcointypes.DefaultGenesis()
+			gs.Params, gs.Pubkey = q, genesisKey.Pub
+			okG := uint64(0)
+			if gs.Validate() == nil {
+				okG = 1
+			}
+			// and through the module's InitGenesis on a restart from exported state (height > 0)
+			okI := uint64(2)
+			if i == 0 {
+				okI = 1
+				f := NewEnv()
+				f.Ctx = f.Ctx.WithBlockHeight([]int64{0, 1, 250001}[r.Intn(3)])
+				if err := f.Relayer.Pubkeys.Set(f.Ctx, relayertypes.EncodePublicKey(genesisKey.Pub)); err != nil {
+					panic(err)
+				}
+				if msg := guard("bitcoin InitGenesis", func() { bitcoinmodule.InitGenesis(f.Ctx, f.Bitcoin, *gs) }); msg != "" {
+					okI = 0
+				}
+			}
 			st.Count(fmt.Sprintf("genesis-validate:accept=%d", ok))
 			probes = append(probes, ptuple(t))
-			obs = append(obs, ptuple([4]uint64{ok, 0, 0, 0}))
+			obs = append(obs, ptuple([4]uint64{ok, okG, okI, 0}))
 			rep.Probes = append(rep.Probes, t)
 			rep.ProbeOK = append(rep.ProbeOK, ok == 1)
 		}
